@@ -73,12 +73,16 @@ class Job:
         self.emit_path = None
 
 
+PHASES = {}
+
+
 def _t(msg, t0=[None]):
     import time
+    now = time.time()
+    if t0[0] is None:
+        t0[0] = now
+    PHASES[msg] = round(now - t0[0], 1)
     if os.environ.get("C03_TIMING"):
-        now = time.time()
-        if t0[0] is None:
-            t0[0] = now
         print("[%6.1fs] %s" % (now - t0[0], msg), flush=True)
 
 
@@ -900,7 +904,7 @@ def sample_streams(ck, rng, chain_traces):
 
 def record_traces(ck, rep, dev, rng, chain_traces):
     lzw, rl, pred = [], [], []
-    budget = {"lzw": 90000, "pred": 8000} if ck.tier == "quick" else {"lzw": 1000000, "pred": 30000}
+    budget = {"lzw": 80000, "pred": 8000} if ck.tier == "quick" else {"lzw": 1000000, "pred": 30000}
     corpus = payload_corpus(ck, rng)
     samples = sample_streams(ck, rng, chain_traces)
     ck.extra["sample_streams_reencoded"] = len(samples)
@@ -914,7 +918,8 @@ def record_traces(ck, rep, dev, rng, chain_traces):
         if idx % 4 == 1 or idx == 0:
             variants = variants + [dict(ec=0)]
         if idx == 0:
-            variants = variants + [dict(defer=None), dict(defer=700, ec=0)]
+            variants = ([dict(), dict(ec=0), dict(defer=None)] if ck.tier == "quick"
+                        else variants + [dict(defer=None), dict(defer=700, ec=0)])
         for kw in variants:
             ec = kw.get("ec", 1)
             enc = cd.lzw_encode(data, **kw)
@@ -948,7 +953,7 @@ def record_traces(ck, rep, dev, rng, chain_traces):
                     else:
                         rep("lzw:after-eod", "LZW stream of %s followed by %r after EOD decoded wrongly" % (origin, trail),
                             {"part": "lzw", "enc": enc, "expected": data})
-                elif budget["lzw"] > 0:
+                elif budget["lzw"] > 0 and (ck.tier != "quick" or len(ev) < 6000):
                     budget["lzw"] -= len(ev)
                     lzw.append({"ev": ev, "total": len(data), "ec": 1, "defer": False, "origin": origin + " +trail"})
         # ---- RunLength: greedy and a random legal segmentation
@@ -1076,7 +1081,9 @@ def corrupt(kind, tr):
     """one recorded field changed - the trace spec must reject it, and say where"""
     t = json.loads(json.dumps(tr))
     if kind == "lzw":
-        i = min(len(t["ev"]) - 1, max(2, len(t["ev"]) * 2 // 3))
+        # TLC prints the whole behaviour up to the rejection, each state with the table abstraction: keep the
+        # corrupted event early (but beyond the first width switch at 253 codes where the trace is that long)
+        i = min(len(t["ev"]) - 1, max(2, min(400, len(t["ev"]) * 2 // 3)))
         t["ev"][i]["w"] += 1
         return t, i
     if kind == "rl":
@@ -1145,6 +1152,7 @@ def corruption_guard(ck, kind, traces):
     base = min(traces, key=lambda t: abs(size(t) - 600)) if kind == "lzw" else max(traces[:40], key=size)
     bad, where = corrupt(kind, base)
     res = run_trace_tlc(ck, kind, [bad], "corrupt")
+    PHASES["corruption guard %s (TLC wall)" % kind] = round(res.wall, 1)
     if res.ok or not res.error_trace:
         raise MachineryError("%s accepted a corrupted trace (field changed at event %d)" % (TRACE_SPECS[kind][0], where))
     k = int(res.error_trace[-1][1][ix])
@@ -1227,6 +1235,8 @@ class JobInfo:
 def task(kind, init, jobinfo, params):
     """runs in a worker process: one replay (direction A) or the trace recording (direction B)"""
     import logging
+    import time
+    t_start = time.time()
     logging.disable(logging.CRITICAL)
     ck = Proxy(init)
     rep = Reporter(ck)
@@ -1265,6 +1275,7 @@ def task(kind, init, jobinfo, params):
         else:
             raise MachineryError("unknown task " + kind)
     out["log"] = ck.dump()
+    out["wall_s"] = round(time.time() - t_start, 1)
     return out
 
 
@@ -1401,6 +1412,7 @@ def run(ck):
             ("pr", "prc" if png_dev else "pr", "pr", {"stride_pdf": 2 if quick else 1})]
     rfut = {}
     gf, vf = {}, {}
+    worker_wall = {}
     sets = None
     pending = list(plan)
     import time
@@ -1431,6 +1443,7 @@ def run(ck):
             # -------------------------------------------------------------- B: validate the recorded traces
             tr = tf.result()
             merge(ck, tr["log"])
+            worker_wall["record traces (B)"] = tr["wall_s"]
             _t("traces recorded")
             sets = dict(tr["traces"])
             for k in ("lzw", "rl", "pred"):
@@ -1452,6 +1465,7 @@ def run(ck):
     for k, f in rfut.items():
         r = f.result()
         merge(ck, r["log"])
+        worker_wall["replay " + jobs[k].label] = r["wall_s"]
         if "ext" in r:
             ext[{"sdx": "stream_length_and_fallback", "fl": "flate_recovery"}[k]] = r["ext"]
         else:
@@ -1479,6 +1493,14 @@ def run(ck):
     pool.shutdown()
     procs.shutdown()
     _t("traces validated")
+    # where the time goes: wall-clock seconds since the start at which each phase ended (phases overlap: TLC jobs
+    # run 8 at a time, replays in 7 worker processes, trace validation in threads), and seconds spent per worker
+    ck.extra["phase_wall_s"] = {
+        "milestones_since_start": {k: v for k, v in PHASES.items()},
+        "tlc_jobs": {r["label"]: r["wall_s"] for r in ck.tlc_runs},
+        "tlc_jobs_sum": round(sum(r["wall_s"] for r in ck.tlc_runs), 1),
+        "worker_processes": worker_wall,
+    }
     if ck.violations:
         by = {}
         for (key, _w, _p) in ck.violations:
